@@ -368,6 +368,12 @@ def supervise(prop, tier: str, seed: int, shards: list[dict], workdir: str, wall
                     p.log.close()
                     running.remove(p)
                     merged["hang_suspects"] += 1
+                    if merged["hangs_confirmed"] >= 3:
+                        # the verdict is already 'violated'; do not spend minutes re-confirming every further
+                        # suspect of an evidently broken tree - the shard is abandoned and that is recorded
+                        merged["shards_abandoned"] = merged.get("shards_abandoned", 0) + 1
+                        merged["suspect_cases"].append({"verdict": "not re-run (3 hangs already confirmed)", "case": _shorten(st[1])})
+                        continue
                     verdict, info = confirm_hang(prop.ID, tier, seed, st[1], workdir, budget)
                     merged["suspect_cases"].append({"verdict": verdict, "case": _shorten(st[1])})
                     if verdict == "hang":
